@@ -79,6 +79,83 @@ pub mod verif_api {
     pub fn set_rollback_segment_size(size: Option<u64>) {
         crate::rollback::VERIF_SEGMENT_SIZE.with(|c| c.set(size));
     }
+
+    /// One base branch node (its page) with the separators ingested while it is the base:
+    /// ascending keys with the new page number, `None` deletes the separator.
+    pub struct VerifBranchStage {
+        /// The page of the base node, if any.
+        pub base: Option<Vec<u8>>,
+        /// Ascending separators below the cutoff with the new page number (`None`: delete).
+        pub ops: Vec<(KeyPath, Option<u32>)>,
+        /// The first separator of the next branch node, `None` for the last node.
+        pub cutoff: Option<KeyPath>,
+    }
+
+    /// A branch node the updater built and what its gauge had computed for it.
+    pub struct VerifBuiltBranch {
+        /// Index of the stage whose `digest` built the node.
+        pub stage: usize,
+        /// The separator the node was handed over with.
+        pub separator: KeyPath,
+        /// The cutoff the node was handed over with.
+        pub cutoff: Option<KeyPath>,
+        /// `BranchGauge::body_size()` of the gauge given to `build_branch`.
+        pub gauge_body_size: usize,
+        /// The gauge's item count.
+        pub n: usize,
+        /// The gauge's prefix length.
+        pub prefix_len: usize,
+        /// The gauge's number of prefix-compressed items.
+        pub prefix_compressed: usize,
+        /// The bytes of the built page.
+        pub page: Vec<u8>,
+    }
+
+    /// Result of `branch_rebuild`.
+    pub struct VerifBranchRebuild {
+        /// The nodes in the order they were built.
+        pub built: Vec<VerifBuiltBranch>,
+        /// Per stage: `digest` returned `NeedsMerge`, body size of the operations left over.
+        pub stages: Vec<(bool, usize)>,
+    }
+
+    /// Build a branch node from ascending separators with the real `BranchNodeBuilder`; the first
+    /// `prefix_compressed` separators share the prefix. Returns its page.
+    pub fn branch_build(seps: &[(KeyPath, u32)], prefix_compressed: usize) -> Vec<u8> {
+        crate::beatree::verif_branch::build(seps, prefix_compressed)
+    }
+
+    /// Drive the real `BranchUpdater` through the stages (`reset_base`, `ingest`.., `digest`) and
+    /// return every node it builds together with the size its `BranchGauge` computed.
+    pub fn branch_rebuild(stages: Vec<VerifBranchStage>) -> VerifBranchRebuild {
+        let out = crate::beatree::verif_branch::rebuild(
+            stages
+                .into_iter()
+                .map(|s| crate::beatree::verif_branch::Stage {
+                    base: s.base,
+                    ops: s.ops,
+                    cutoff: s.cutoff,
+                })
+                .collect(),
+        );
+        VerifBranchRebuild {
+            built: out
+                .built
+                .into_iter()
+                .map(|b| VerifBuiltBranch {
+                    stage: b.stage,
+                    separator: b.separator,
+                    cutoff: b.cutoff,
+                    gauge_body_size: b.gauge.body_size,
+                    n: b.gauge.n,
+                    prefix_len: b.gauge.prefix_len,
+                    prefix_compressed: b.gauge.prefix_compressed,
+                    page: b.page,
+                })
+                .collect(),
+            stages: out.stages,
+        }
+    }
 }
 
 const MAX_COMMIT_CONCURRENCY: usize = 64;
